@@ -124,7 +124,7 @@ class MEngine:
             s.push()
             try:
                 s.add(z3.Not(z3.substitute(conj, lmap)))
-                r = guarded_check(s, 5000)
+                r = guarded_check(s, 2500)
                 if r == z3.unsat:
                     break
                 m = None
@@ -410,7 +410,7 @@ def _worker(args):
                 "wall": time.time() - t0, "cuts": [], "leftover": [], "idx": entry_idx}
 
 
-UNIT_PATHS = 12
+UNIT_PATHS = 5
 
 
 def explore_entry(eng, entry, inv, tier, t0, prefix=(), limit=None):
